@@ -56,6 +56,9 @@
 #include <fcppt/options/apply.hpp>
 #include <fcppt/options/flag.hpp>
 #include <fcppt/options/long_name.hpp>
+#include <fcppt/options/make_commands.hpp>
+#include <fcppt/options/make_many.hpp>
+#include <fcppt/options/make_sub_command.hpp>
 #include <fcppt/options/make_active_value.hpp>
 #include <fcppt/options/make_inactive_value.hpp>
 #include <fcppt/options/no_default_value.hpp>
@@ -609,6 +612,10 @@ void filesystem_fns(std::string const &scratch)
 FCPPT_RECORD_MAKE_LABEL(arg_label);
 FCPPT_RECORD_MAKE_LABEL(flag_label);
 FCPPT_RECORD_MAKE_LABEL(opt_label);
+FCPPT_RECORD_MAKE_LABEL(arg2_label);
+FCPPT_RECORD_MAKE_LABEL(opt2_label);
+FCPPT_RECORD_MAKE_LABEL(cmd_foo_label);
+FCPPT_RECORD_MAKE_LABEL(cmd_bar_label);
 void options_parse(c06::config const &cfg)
 {
   namespace o = fcppt::options;
@@ -618,6 +625,20 @@ void options_parse(c06::config const &cfg)
   o::option<opt_label, int> const opt{o::optional_short_name{o::short_name{FCPPT_TEXT("o")}}, o::long_name{FCPPT_TEXT("opt")},
                                       o::no_default_value<int>(), o::optional_help_text{}};
   auto const all{o::apply(fcppt::make_cref(flag), fcppt::make_cref(opt), fcppt::make_cref(arg))};
+  // the positional argument is applied first, so that it has to skip over options and their values
+  auto const arg_first{o::apply(fcppt::make_cref(arg), fcppt::make_cref(opt), fcppt::make_cref(flag))};
+  auto const many_args{o::apply(
+      o::make_many(o::argument<arg2_label, int>{o::long_name{FCPPT_TEXT("args")}, o::optional_help_text{}}),
+      fcppt::make_cref(opt))};
+  auto const commands{o::make_commands(
+      o::option<opt2_label, int>{o::optional_short_name{o::short_name{FCPPT_TEXT("o")}}, o::long_name{FCPPT_TEXT("opt")},
+                                 o::no_default_value<int>(), o::optional_help_text{}},
+      o::make_sub_command<cmd_foo_label>(FCPPT_TEXT("x"), o::argument<arg_label, int>{o::long_name{FCPPT_TEXT("arg")}, o::optional_help_text{}},
+                                         o::optional_help_text{}),
+      o::make_sub_command<cmd_bar_label>(FCPPT_TEXT("5"), o::flag<flag_label, int>{o::optional_short_name{o::short_name{FCPPT_TEXT("f")}},
+                                                                                      o::long_name{FCPPT_TEXT("flag")}, o::make_active_value(1),
+                                                                                      o::make_inactive_value(0), o::optional_help_text{}},
+                                         o::optional_help_text{}))};
   std::vector<std::string> const toks{"-", "--", "", "-f", "--flag", "--opt", "-o", "5", "x", "--opt=5", "-x", "---", "-5", "--flag=1"};
   std::vector<fcppt::args_vector> argvs{{}};
   std::size_t const maxlen = cfg.tier == 0 ? 3 : 4;
@@ -639,6 +660,15 @@ void options_parse(c06::config const &cfg)
   {
     total_call(fname("options_parse") + ",\"p\":\"flag+opt+arg\",\"argv\":" + log_args(a), [&all, &a] {
       return fcppt::either::match(o::parse(all, a), [](auto const &) { return failure(); }, [](auto const &) { return value("[]"); });
+    });
+    total_call(fname("options_parse") + ",\"p\":\"arg+opt+flag\",\"argv\":" + log_args(a), [&arg_first, &a] {
+      return fcppt::either::match(o::parse(arg_first, a), [](auto const &) { return failure(); }, [](auto const &) { return value("[]"); });
+    });
+    total_call(fname("options_parse") + ",\"p\":\"many(arg)+opt\",\"argv\":" + log_args(a), [&many_args, &a] {
+      return fcppt::either::match(o::parse(many_args, a), [](auto const &) { return failure(); }, [](auto const &) { return value("[]"); });
+    });
+    total_call(fname("options_parse") + ",\"p\":\"commands\",\"argv\":" + log_args(a), [&commands, &a] {
+      return fcppt::either::match(o::parse(commands, a), [](auto const &) { return failure(); }, [](auto const &) { return value("[]"); });
     });
     if (a.size() <= 2)
     {
